@@ -14,6 +14,8 @@ SPEC = {
         {"name": "limits", "pkg": "./limits", "search_cases": 30000},
         {"name": "sillimits", "pkg": "./sillimits", "search_cases": 20000},
         {"name": "sem", "pkg": "./sem", "search_cases": 8000},
+        # concurrent creates with one slot left (real goroutines, real time; the limit callback widens the window)
+        {"name": "mutesrace", "pkg": "./mutesrace", "search_cases": 60, "timeout_quick": 300, "only": ["count_le_max"]},
     ],
     "rule": "limits: random admission / re-send / wait / GC sequences on real store.Alerts.WithPerAlertLimit (real limit.Bucket heaps) and, in a quarter "
             "of the cases, real mem.Alerts (Put, own GC ticker, alerts_limited_total) under synctest virtual time; limit 0..4, two alert names, "
